@@ -89,6 +89,105 @@ def gen_list(quick):
             ("sim_3c_single", G(nconn=3, up=1, down=1, single=True, maxsess=3, sto=3, feat="fail,time,async", depth=n(30, 50)), n(40, 800))]
 
 
+def _ev(tok):
+    import re
+    m = re.match(r"([A-Za-z]+?)(\d*)([cs]?)$", tok)
+    a, n, side = m.group(1), int(m.group(2) or 0), m.group(3)
+    if a == "Deliver":
+        return {"a": a, "i": 0, "s": n, "side": side}
+    if a == "TunnelFail":
+        return {"a": a, "i": 0, "s": n, "side": ""}
+    if a in ("ArmDialFail", "Advance"):
+        return {"a": a, "i": 0, "s": 0, "side": ""}
+    return {"a": a, "i": n, "s": 0, "side": ""}
+
+
+# Scenarios that exhibit the named deviations of Relay.tla (modelled as the code behaves).  Each is generated by
+# RelayScript, must show the deviation in the MODEL (expect(final observation)), and is replayed on the code like any other
+# behaviour: no divergence = the code does exactly this.  (name, singleplex, STO, script, expect, what)
+SCENARIOS = [
+    ("EitherEndClosesBoth/A-server", False, 1,
+     "LocalDial1 LocalWrite1 Deliver1s LocalWrite1 Deliver1s LocalClose1 Deliver1s ProxyWrite1 ProxyRead1 ProxyRead1",
+     lambda o: o["gotUp"][0] == [11] and o["wroteUp"][0] == 2 and o["eofUp"][0] and not o["hurt"][0] and not o["owedUp"][0],
+     "local application writes 2 units and closes; the proxy application, which has read nothing yet, writes once: serveSession's "
+     "ReadFrom sees the stream closed, Copy closes the proxy connection, the second unit (held by the other copy direction) is lost"),
+    ("EitherEndClosesBoth/A-client", False, 1,
+     "LocalDial1 LocalWrite1 Deliver1s ProxyWrite1 Deliver1c ProxyWrite1 Deliver1c ProxyClose1 Deliver1c LocalWrite1 LocalRead1 LocalRead1",
+     lambda o: o["gotDn"][0] == [11] and o["wroteDn"][0] == 2 and o["eofDn"][0] and not o["hurt"][0] and not o["owedDn"][0],
+     "the mirror image on the client: the proxy application writes 2 units and closes, the local application writes once before reading"),
+    ("EitherEndClosesBoth/C-singleplex", True, 1,
+     "LocalDial1 LocalWrite1 Deliver1s LocalWrite1 LocalClose1 ProxyWrite1 ProxyRead1 ProxyRead1",
+     lambda o: o["gotUp"][0] == [11] and o["wroteUp"][0] == 2 and o["ss"][0] == "closed" and not o["owedUp"][0],
+     "singleplex: the client closes its session (and connection) right behind its last frames; a write of the server before it has read "
+     "them fails, the server closes the session passively and the frames in flight are never read"),
+    ("DialFailKillsSession", False, 1,
+     "LocalDial1 LocalWrite1 Deliver1s ProxyRead1 ArmDialFail LocalDial2 LocalWrite2 Deliver1s Deliver1c",
+     lambda o: o["lrel"][0] == "closed" and o["lapp"][0] == "open" and o["papp"][0] == "open" and o["kill"][0] == "dial",
+     "the proxy dial for the stream of connection 2 fails: serveSession closes the whole session, the healthy connection 1 is closed with it"),
+    ("StaleSessionCapture", False, 3,
+     "LocalDial1 Advance Advance LocalWrite1",
+     lambda o: o["lrel"][0] == "closed" and o["gotUp"][0] == [] and o["nsess"] == 1 and o["kill"][0] == "idle",
+     "a local connection that sends its first bytes 30 s after it was accepted: its session has idled out, OpenStream fails, the connection is dropped"),
+    ("SingleplexIdleLeak", True, 3,
+     "LocalDial1 LocalClose1",
+     lambda o: o["lrel"][0] == "closed" and o["cs"][0] == "open" and o["ss"][0] == "open",
+     "singleplex: a connection that closes before its first byte leaves its session open (until the 30 s idle check)"),
+    ("FirstWriteFails", False, 1,
+     "ArmDialFail LocalDial1 LocalWrite1 Deliver1s LocalDial2 LocalWrite2",
+     lambda o: o["lrel"][1] == "closed" and o["cst"][1] == "closed" and o["nsess"] == 1 and o["cs"][0] == "closed",
+     "connection 2 is attached to a session the server has already closed (notice still in flight): OpenStream succeeds, the first write fails"),
+]
+
+
+def tlc_scenarios(ctx):
+    out = []
+    groups = {}
+    for sc in SCENARIOS:
+        groups.setdefault((sc[1], sc[2]), []).append(sc)
+    for (single, sto), scs in groups.items():
+        sf = os.path.join(ctx.work, "scripts_%s_%d.json" % (single, sto))
+        with open(sf, "w") as fh:
+            json.dump([[_ev(tok) for tok in sc[3].split()] for sc in scs], fh)
+        cfg = C(nconn=2, up=3, down=3, single=single, maxsess=3, sto=sto, feat="fail,dialfail,time,reset,async")
+        cfg.pop("INV")
+        r = lib.run_tlc(ctx, "RelayScript", "RelayScript.cfg", cfg, env={"VERIF_SCRIPT": sf}, workers=1, tag="script_%s_%d" % (single, sto), timeout=900)
+        lib.require_ok(r, "RelayScript")
+        got = {b["script"]: b for b in r.behaviours}
+        for n, sc in enumerate(scs):
+            b = got.get(n + 1)
+            if b is None:
+                raise lib.Inconclusive("scenario %s: the model does not enable the script" % sc[0])
+            if not sc[4](b["steps"][-1]["obs"]):
+                raise lib.Inconclusive("scenario %s: the model no longer shows the deviation: %s" % (sc[0], json.dumps(b["steps"][-1]["obs"])[:800]))
+            b.pop("script")
+            b.update(gen="scenario:" + sc[0], single=single, sto=sto, nconn=2)
+            out.append(b)
+    return out
+
+
+def confluence(ctx, quick):
+    """the replay takes the continuations of running goroutines in one canonical order; generated with EVERY order, behaviours
+    with the same environment steps must carry the same observations (otherwise the real scheduler could legitimately differ)"""
+    total = 0
+    for tag, kw in [("1c", dict(feat="fail,dialfail,time,reset,async", depth=4 if quick else 6)),
+                    ("2c", dict(nconn=2, feat="fail,dialfail,async", depth=5 if quick else 7)),
+                    ("2c_single", dict(nconn=2, single=True, feat="fail,time,async", depth=5 if quick else 7))]:
+        depth = kw.pop("depth")
+        cfg = dict(C(**kw), DEPTH=depth, CANON="FALSE")
+        r = lib.run_tlc(ctx, "RelayGen", "RelayGen.cfg", cfg, tag="confl_" + tag, workers=8, timeout=1500)
+        lib.require_ok(r, "RelayGen confluence " + tag)
+        seen = {}
+        for b in r.behaviours:
+            k = json.dumps([s["ev"] for s in b["steps"]], sort_keys=True)
+            v = json.dumps([s["obs"] for s in b["steps"]], sort_keys=True)
+            if seen.setdefault(k, v) != v:
+                raise lib.Inconclusive("Relay is not confluent under the replay's granularity: two orders of continuations give different "
+                                       "observations for the environment steps %s" % k[:600])
+        total += len(seen)
+    ctx.log("confluence: %d environment schedules, every order of continuations gives the same observations" % total)
+    return total
+
+
 def tlc_gen(ctx, tag, cfg, sim):
     r = lib.run_tlc(ctx, "RelayGen", "RelayGen.cfg", cfg, tag="gen_" + tag, simulate=sim, depth=400 if sim else None,
                     workers=(4 if sim else 8), timeout=1500)
@@ -136,7 +235,7 @@ def join_model(ctx, pool, jobs):
 
 
 def go_replay(ctx, path, tag="replay", timeout=1500):
-    return lib.run_go(ctx, "server", "TestVerifX02Replay", env={"VERIF_IN": path, "GOGC": "400"}, timeout=timeout, tag=tag,
+    return lib.run_go(ctx, "server", "TestVerifX02Replay", env={"VERIF_IN": path, "GOGC": "400"}, timeout=7200 if timeout < 7200 else timeout, tag=tag,
                       harness_dirs=["server"], extra_args=["-v"])
 
 
@@ -165,11 +264,14 @@ def run(ctx):
     inp = os.path.join(ctx.work, "behaviours.ndjson")
     bg = ThreadPoolExecutor(max_workers=1)
     gofut = bg.submit(go_replay, ctx, inp)           # builds while TLC works; the test waits for <input>.ready
+    # X02_PART=replay (debugging aid, e.g. for trying mutants on a busy machine): generators + replay only
+    only_replay = os.environ.get("X02_PART") == "replay"
     try:
-        pool, jobs = model_check(ctx, quick)
+        pool, jobs = (ThreadPoolExecutor(max_workers=1), []) if only_replay else model_check(ctx, quick)
         behaviours = []
         gp = ThreadPoolExecutor(max_workers=3)
         gf = [(tag, gp.submit(tlc_gen, ctx, tag, cfg, sim)) for tag, cfg, sim in gen_list(quick)]
+        gf.append(("scenarios", gp.submit(tlc_scenarios, ctx)))
         per_gen = {}
         for tag, f in gf:
             bs = f.result()
@@ -194,6 +296,8 @@ def run(ctx):
     stats = judge(ctx, res, expect_n=len(uniq))
     ctx.log("replay: %d behaviours, %d steps, diverged %d, violations %d" % (
         res.get("evaluations", 0), stats.get("steps", 0), stats.get("diverged", 0), len(res.get("violations", []))))
+    if only_replay:
+        ctx.notes.append("X02_PART=replay: model checking and negative configurations were skipped in this run")
     coverage = {"evaluations": res.get("evaluations", 0), "distinct_nontrivial": res.get("distinct_nontrivial", 0), "rule": RULE,
                 "samples": res.get("samples", [])[:3], "traces_validated_against_impl": res.get("evaluations", 0),
                 "exhaustive": summary["exhaustive"], "negatives": summary["negatives"], "behaviours_per_generator": per_gen,
